@@ -24,7 +24,7 @@ LEAF_SPECS = [
 ]
 
 OPS = ["add", "remove", "set_parent", "set_children", "set_sources", "set_sensors",
-       "set_collections", "plus", "copy", "new_coll"]
+       "set_collections", "plus", "copy", "new_coll", "iadd"]
 POISONS = ["junk", "int", "none", "self", "ancestor", "dup", "parented", "not_child",
            "bad_errors", "uncopyable", "nested_list"]
 
@@ -226,6 +226,14 @@ def exec_op(world, op):
                 t = world[op["t"]]
                 args = [_resolve(world, a, op["t"]) for a in op["args"]]
                 setattr(t, kind[4:], args)
+            elif kind == "iadd":
+                # augmented assignment `t.children += [...]` (also sources/sensors/collections): Python
+                # evaluates it as  t.children = t.children.__iadd__([...])
+                import operator
+
+                t = world[op["t"]]
+                args = [_resolve(world, a, op["t"]) for a in op["args"]]
+                setattr(t, op["view"], operator.iadd(getattr(t, op["view"]), args))
             elif kind == "plus":
                 a = world[op["a"]]
                 b = _resolve(world, op["b"], op["a"])
@@ -268,7 +276,7 @@ def apply_variant(op, var):
     if k == "nested_list":
         token = [var["ref"]]
     if op["op"] in ("add", "remove", "new_coll", "set_children", "set_sources", "set_sensors",
-                    "set_collections"):
+                    "set_collections", "iadd"):
         if k == "bad_errors":
             v["errors"] = "bogus"
             return v
@@ -536,7 +544,7 @@ class Sim:
         kind = op["op"]
         n = len(w.objs)
         if kind in ("add", "new_coll", "set_children", "set_sources", "set_sensors", "set_collections",
-                    "remove"):
+                    "remove", "iadd"):
             t = op.get("t", 0)
             args = op["args"]
             for pos in range(len(args) + 1):
@@ -606,7 +614,11 @@ class Sim:
         kind = rng.choice(kinds)
         colls = w.colls()
         n = len(w.objs)
-        if kind in ("add", "remove", "set_children", "set_sources", "set_sensors", "set_collections"):
+        if kind == "iadd":
+            t = rng.choice(colls)
+            op = {"op": "iadd", "t": t, "view": rng.choice(["children", "children", "sources", "sensors", "collections"]),
+                  "args": self._pick_args(rng, w, t, rng.choice([1, 1, 2]))}
+        elif kind in ("add", "remove", "set_children", "set_sources", "set_sensors", "set_collections"):
             t = rng.choice(colls)
             k = rng.choice([1, 1, 2, 2, 3, 4])
             if kind != "add" and kind != "remove" and rng.random() < 0.1:
